@@ -122,4 +122,41 @@ theorem smatchP_iff : ∀ (toks : List STok) (s : Str) (vs : List Str) (rest : S
           refine ⟨v, p' ++ rest, (mem_splits _ _ _).2 ⟨g v (by simp), by simp [h2]⟩, vs', rest, ?_, rfl⟩
           exact (ih _ _ _).2 ⟨fun x hx => g x (by simp [hx]), p', h1, rfl⟩
 
+theorem mem_tagFrom {mk : Nat → SrvRef} : ∀ {l : List Server} {j : Nat} {x : SrvRef × Server},
+    x ∈ tagFrom mk j l → ∃ i, l[i]? = some x.2 ∧ x.1 = mk (j + i) := by
+  intro l
+  induction l with
+  | nil => intro j x h; simp [tagFrom] at h
+  | cons s rest ih =>
+    intro j x h
+    simp only [tagFrom, List.mem_cons] at h
+    rcases h with rfl | h
+    · exact ⟨0, by simp, rfl⟩
+    · obtain ⟨i, h1, h2⟩ := ih h
+      exact ⟨i + 1, by simpa using h1, by rw [h2]; congr 1; omega⟩
+
+
+theorem specServerRems_sound (e : Bool) (s : Server) (r : Req) (rem : Str) (h : rem ∈ specServerRems e s r) :
+    ∃ vals, Fills (sparseS (dropOneSlash s.url)) vals
+        (if isRelativeURL (dropOneSlash s.url) then r.path else fullURL r) rem ∧
+      (rem = [] ∨ rem.head? = some '/') ∧
+      (e = true → enumOK s (svarNames (sparseS (dropOneSlash s.url))) vals = true) := by
+  simp only [specServerRems, List.mem_filterMap] at h
+  obtain ⟨⟨vals, rest⟩, hm, hc⟩ := h
+  split at hc
+  · rename_i hcond
+    simp only [Option.some.injEq] at hc
+    subst hc
+    simp only [Bool.and_eq_true, Bool.or_eq_true, decide_eq_true_eq, Bool.not_eq_true'] at hcond
+    refine ⟨vals, (smatchP_iff _ _ _ _).1 hm, ?_, ?_⟩
+    · rcases hcond.1 with h1 | h1
+      · exact Or.inl h1
+      · exact Or.inr (by simpa using h1)
+    · intro he
+      rcases hcond.2 with h2 | h2
+      · rw [he] at h2; simp at h2
+      · exact h2
+  · simp at hc
+
+
 end KinModel.Router
